@@ -633,3 +633,34 @@ Proof. intros h Hd. destruct (run_inv h Hd) as (_ & _ & H & _). exact H. Qed.
 Lemma table_is_last_def_proof : forall h n,
   dead (fst (run h)) = false -> assoc (env (fst (run h))) n = last_def (pubs (snd (run h))) n.
 Proof. intros h n Hd. destruct (run_inv h Hd) as (H & _). apply H. Qed.
+
+(* ------------------------------------------------------------ the property's third clause, literally *)
+
+Lemma last_def_In log : forall n d, In (n, d) log -> last_def log n <> None.
+Proof.
+  induction log as [|[m x] log IH]; intros n d H; simpl in *; [destruct H|].
+  destruct H as [H|H].
+  - inversion H; subst. destruct (last_def log n); [discriminate|]. rewrite Nat.eqb_refl. discriminate.
+  - specialize (IH n d H). destruct (last_def log n); [discriminate | contradiction].
+Qed.
+
+(* if some function named n was exported by an earlier successful load, then loading a module that
+   exports a function named n is rejected with repeated_decl iff redefinition is not permitted *)
+Lemma second_function_export_proof : forall (h : list op) (ds : list decl) (m : modl) n k i it,
+  let s := fst (run h) in
+  let tr := snd (run h) in
+  dead s = false -> build ds = inl m ->
+  In (n, DMod k i KFunc) (pubs tr) ->
+  In it (mitems m) -> ik it = KFunc -> iexp it = true -> iname it = n ->
+  (snd (step s (Load ds)) = OErr ERepeatedDecl <-> redef_of tr = false) /\
+  (redef_of tr = true -> snd (step s (Load ds)) = OOk).
+Proof.
+  intros h ds m n k i it s tr Hd Hb Hpub Hin Hk He Hn.
+  destruct (link_redef_rejected_proof h ds m Hd Hb) as [Hcases Hiff]. fold s tr in Hcases, Hiff.
+  assert (Hred : redefines (pubs tr) (loads_in tr) m).
+  { destruct (in_split _ _ Hin) as (l1 & l2 & Hsp). exists l1, it, l2. repeat split; auto.
+    rewrite Hn. apply (last_def_In _ n (DMod k i KFunc)). apply in_or_app. left. exact Hpub. }
+  split.
+  - split; [intro H; apply Hiff in H; tauto | intro H; apply Hiff; split; assumption].
+  - intro Ht. destruct Hcases as [H|H]; [exact H|]. apply Hiff in H. destruct H as [H _]. congruence.
+Qed.
